@@ -171,7 +171,7 @@ def run(cx):
             want = ("ok", eval(e, {"__builtins__": {"abs": abs, "int": int, "float": float, "str": str, "bool": bool, "len": len, "round": round, "min": min, "max": max}}, dict(env_src)))
         except Exception as ex_:
             continue   # the expression has no value in Python: out of the property's scope
-        it = dl.Interp(pm, opaque={"ast.parse": ast.parse})
+        it = dl.Interp(pm, opaque={"ast.parse": ast.parse, "ast.walk": lambda n_: list(ast.walk(n_)), "ast.iter_child_nodes": lambda n_: list(ast.iter_child_nodes(n_))})
         try:
             out = it.call(evc, [e, {k: (list(v) if isinstance(v, list) else v) for k, v in env_src.items()}])
         except dl.Unsupported as ex_:
@@ -348,6 +348,12 @@ def run(cx):
     found = list_size_guard_ok(pm)
     r.check(found, "_handle_assignment_ast/list-size-mismatch-rejected", (pm, ha), "the size-mismatch rejection for re-assigned lists is gone: the statically tracked length (used to fold len()) can become stale")
 
+
+    # ---- C03-STATE ---------------------------------------------------------------------------
+    # a fold is a function of the expression text and the environment at that program point only: the parser keeps no
+    # module-level memo through which an earlier statement's (mutable) value could be handed out again
+    from . import c10
+    c10.rule_global_state(cx, "C03-STATE", [pm], floor=1, only={"_eval_const", "_to_c_expr", "_expr_has_name", "_handle_assignment_ast"})
 
     # ---- C03-FRESH ---------------------------------------------------------------------------
     r = cx.rule("C03-FRESH", "a list baked into an IR node (flash pattern, glyph bitmap) is a fresh object built for that statement, never the list tracked in the constant environment: a later append/remove on the script's list cannot rewrite a value already baked", floor=2)
